@@ -75,8 +75,34 @@ def _shift(node, dl, db, keep_param_names=False):
     return out
 
 
+def is_pure_accessor(path, j, raw):
+    """small `&self` function without stores through references and without calls other than to std value helpers or other pure accessors:
+    `is_connected()`, `is_disconnected()`, `disconnect_reason()`. They are inlined into their callers (and stay subjects of their own), so
+    a status test reads the same whether it is written `self.is_disconnected()`, `matches!(self.connection_status, ..)` or `if let .. = ..`."""
+    if j.get("kind") not in ("Fn", "AssocFn") or "{closure" in path or j.get("argc") != 1 or len(j["blocks"]) > 14: return False
+    l1 = j["locals"][1]["ty"] if len(j["locals"]) > 1 else {}
+    if not (l1.get("k") == "ref" and not l1.get("mut")): return False
+    for b in j["blocks"]:
+        if b.get("cleanup"): continue
+        for st in b["stmts"]:
+            if st["k"] == "assign" and any(pr["k"] == "deref" for pr in st["place"]["proj"]): return False
+        t = b["term"]
+        if t["k"] == "call":
+            nm = t.get("resolved") or t.get("callee") or ""
+            if not (nm.endswith("::clone") or "PartialEq" in nm or "::eq" in nm or "::ne" in nm or "Option" in nm and nm.rsplit("::", 1)[-1] in ("is_some", "is_none")): return False
+        if t["k"] in ("assert", "drop"): 
+            if t["k"] == "assert": return False
+    return True
+
+
 def inline_helpers(raw, max_rounds=6):
     helpers = {p for p, j in raw.items() if is_helper(p, j)}
+    import re
+    # pure accessors no rule names, plus the connection-status predicates (rules reason about the status enum itself, see rules/C12.py)
+    STATUS = ("RenetClient::is_disconnected", "RenetClient::is_connected", "RenetClient::is_connecting", "RenetClient::disconnect_reason")
+    accessors = {p for p, j in raw.items() if p not in helpers and is_pure_accessor(p, j, raw)
+                 and (p.endswith(STATUS) or not re.search(r"\b" + re.escape(p.rsplit("::", 1)[-1]) + r"\b", anchor_text()))}
+    helpers |= accessors
     # callers graph restricted to helpers, to refuse recursion
     def callees(j):
         out = set()
@@ -132,7 +158,8 @@ def inline_helpers(raw, max_rounds=6):
                 used[r] = used.get(r, 0) + 1
                 changed = True
         if not changed: break
-    for h in used: out.pop(h, None)
+    for h in used:
+        if h not in accessors: out.pop(h, None)
     for p in list(out):
         # every function: `let r = match .. { A => Some(x), B => None }; if let Some(x) = r { .. }` has the same merge-then-test shape as an inlined helper
         if not any(bb["term"].get("inl_call") for bb in out[p]["blocks"]):
@@ -161,6 +188,7 @@ def thread_known_variants(j, max_chain=5):
         if st["k"] != "assign" or st["place"]["proj"]: return
         l = st["place"]["local"]; rv = st["rv"]
         env.pop(l, None); denv.pop(l, None)
+        if rv["k"] in ("ref", "rawptr") and not rv["place"]["proj"] and rv["place"]["local"] in env: env[l] = env[rv["place"]["local"]]   # &x of a known variant
         if rv["k"] == "aggr" and rv.get("vname") in _VARIANT_INDEX and (rv.get("path") or "").split("::")[-1] in ("Result", "Option", "ControlFlow"): env[l] = rv["vname"]
         elif rv["k"] == "use" and rv["op"]["k"] in ("copy", "move") and not rv["op"]["place"]["proj"] and rv["op"]["place"]["local"] in env: env[l] = env[rv["op"]["place"]["local"]]
         elif rv["k"] == "discr" and not rv["place"]["proj"] and rv["place"]["local"] in env: denv[l] = _VARIANT_INDEX[env[rv["place"]["local"]]]
@@ -207,6 +235,9 @@ def thread_known_variants(j, max_chain=5):
                             a0 = tm["args"][0] if tm["args"] else None
                             if nm.endswith("Try>::branch") and a0 and a0["k"] in ("copy", "move") and not a0["place"]["proj"] and a0["place"]["local"] in env and d is not None:
                                 env[d] = _BRANCH[env[a0["place"]["local"]]]
+                            elif nm.rsplit("::", 1)[-1] in ("is_none", "is_some") and "Option" in nm and a0 and a0["k"] in ("copy", "move") and not a0["place"]["proj"] and a0["place"]["local"] in env and d is not None:
+                                v_ = env[a0["place"]["local"]]
+                                if v_ in ("Some", "None"): denv[d] = int((v_ == "None") == nm.endswith("is_none"))
                 d = on["place"]["local"]
                 if d not in denv: continue
                 val = denv[d]
